@@ -805,6 +805,22 @@ impl ElementRaw {
         let src_path_prefix = move_element.0.read().path_unchecked()?;
         let dest_path_prefix = self.path_unchecked()?;
 
+        // only an identifiable element gets a new unique name at the destination. If the moved element is not identifiable,
+        // then the identifiable elements it contains must not collide with elements that already exist at the destination
+        if !move_element.is_identifiable() {
+            for orig_path in &original_paths {
+                if let Some(suffix) = orig_path.strip_prefix(&src_path_prefix) {
+                    let new_path = format!("{dest_path_prefix}{suffix}");
+                    if new_path != *orig_path && model.get_element_by_path(&new_path).is_some() {
+                        return Err(AutosarDataError::DuplicateItemName {
+                            element: move_element.element_name(),
+                            item_name: suffix.trim_start_matches('/').to_string(),
+                        });
+                    }
+                }
+            }
+        }
+
         // limit the lifetime of the lock on src_parent
         {
             // lock the source parent element and remove the move_element from its content list
@@ -912,6 +928,22 @@ impl ElementRaw {
             .filter(|(_, e)| e.is_reference())
             .filter_map(|(_, e)| e.character_data().map(|data| (data.to_string(), e)))
             .collect();
+
+        // only an identifiable element gets a new unique name at the destination. If the moved element is not identifiable,
+        // then the identifiable elements it contains must not collide with elements that already exist at the destination
+        if !move_element.is_identifiable() {
+            for orig_path in original_paths.keys() {
+                if let Some(suffix) = orig_path.strip_prefix(&src_path_prefix) {
+                    let new_path = format!("{dest_path_prefix}{suffix}");
+                    if model.get_element_by_path(&new_path).is_some() {
+                        return Err(AutosarDataError::DuplicateItemName {
+                            element: move_element.element_name(),
+                            item_name: suffix.trim_start_matches('/').to_string(),
+                        });
+                    }
+                }
+            }
+        }
 
         // limit the lifetime of the mutex on src_parent
         {
